@@ -37,6 +37,7 @@ R = Registry(
 
 MUT = "ext/mutable.py"
 CLASSES = {"dict": "MutableDict", "list": "MutableList", "set": "MutableSet"}
+PARTIAL = {k: v for k, v in load("python_partial_mutators.json").items() if k != "_comment"}
 
 
 def _builtin_calls(fn, t):
@@ -120,6 +121,7 @@ def r2(ctx):
     for t, cname in CLASSES.items():
         cls = ctx.index.cls(f"{MUT}::{cname}")
         muts = _all_mutators(t)
+        partial = {}
         for m in muts:
             key = f"{MUT}::{cname}.{m}"
             f = cls.methods.get(m)
@@ -177,6 +179,45 @@ def r2(ctx):
                 if falls or not rets or not all(isinstance(r.value, ast.Name) and r.value.id == "self" for r in rets):
                     problems.append("in-place operator does not return self (the attribute would be rebound to another object)")
             ctx.check(not problems, key, "; ".join(problems), how, f.loc)
+            # a builtin that consumes an arbitrary iterable element by element keeps what it consumed when the iteration
+            # raises part-way: the value HAS changed although the call failed, so changed() is owed on that exit too.
+            # One instance per (class, builtin): wherever the class calls that builtin.
+            for n, c in bcalls:
+                if n not in PARTIAL[t]:
+                    continue
+                okc = all(_materialised(a, f.node) for a in c.args[1 if _explicit_self(c) else 0:]) and not c.keywords
+                if not okc:
+                    okc = all(g.must_pass([nid], [g.raise_exit], changed, start_edge_ok=lambda a, b, l: l == "exc") is None
+                              for nid in g.nodes_containing(c))
+                partial.setdefault(n, []).append((m, okc, f.loc))
+        for n, sites in sorted(partial.items()):
+            bad = sorted({m for m, okc, _ in sites if not okc})
+            ctx.check(not bad, f"{MUT}::{cname}:{t}.{n}:partial-failure",
+                      f"{t}.{n} (called by {cname}.{'/'.join(bad)}) consumes its argument element by element: when iterating the argument "
+                      f"raises part-way (a failing generator, an unhashable element) the elements consumed so far STAY in the "
+                      f"{cname}, but the exception leaves the override before self.changed() -- the in-memory value has "
+                      f"changed, the parent is not flagged and flush does not write it (call changed() in a `finally`, or "
+                      f"materialise the argument before handing it to the builtin)",
+                      "changed() also on the exceptional exit of the builtin (or argument materialised first)", sites[0][2])
+
+
+def _explicit_self(c):
+    return isinstance(c.func, ast.Attribute) and isinstance(c.func.value, ast.Name) and c.args \
+        and isinstance(c.args[0], ast.Name) and c.args[0].id == "self"
+
+
+def _materialised(a, fn):
+    """the argument handed to the builtin is already a concrete builtin container (`list(x)`, a display, or a local bound
+    only to such a thing): iterating it cannot raise"""
+    if isinstance(a, (ast.List, ast.Tuple, ast.Set, ast.Dict, ast.Constant)):
+        return True
+    if isinstance(a, ast.Call) and isinstance(a.func, ast.Name) and a.func.id in PLAIN and not a.keywords:
+        return True
+    if isinstance(a, ast.Name):
+        vals = [n.value for n in walk_local(fn) if isinstance(n, ast.Assign) and any(isinstance(tg, ast.Name) and tg.id == a.id for tg in n.targets)]
+        params = {x.arg for x in fn.args.args + fn.args.posonlyargs + fn.args.kwonlyargs} | ({fn.args.vararg.arg} if fn.args.vararg else set())
+        return bool(vals) and a.id not in params and all(_materialised(v, fn) for v in vals)
+    return False
 
 
 PLAIN = {"dict", "list", "set", "tuple", "frozenset"}
@@ -477,6 +518,21 @@ def _check_set_handler(ctx, lf, s):
     w = g.witness([g.entry], [g.exit], avoid=unl, edge_ok=assuming(g, {"old-isinst": True, "same": False}, fact, env)) if unl else ["-"]
     if w is not None:
         probs.append("the old value is not unlinked from the parent")
+    # ... and it loses the link only when it really is replaced.  (a) The handler can still REJECT the assignment after
+    # the unlink: cls.coerce() raises ValueError for a value it does not accept (so does an explicit raise); the attribute
+    # event is aborted, the old value stays the attribute's value -- but is no longer linked to its parent.
+    rejects = coerces + [n.id for n in g.nodes if n.kind == "stmt" and isinstance(n.stmt, ast.Raise)]
+    if unl and rejects and g.witness(unl, rejects, edge_ok=no_exc) is not None:
+        probs.append("the old value is unlinked BEFORE the point where the new value can still be rejected (cls.coerce() raises "
+                     "ValueError for an unacceptable value): after a rejected assignment the attribute keeps the old value, "
+                     "which has lost its _parents entry -- its in-place changes no longer flag the parent and are never flushed")
+    # (b) value is oldvalue (`obj.data = obj.data`): whatever is unlinked has to be linked (again) before the handler ends
+    # (scenario: a tracked value, i.e. an instance of cls, is assigned to the attribute that already holds it)
+    same = assuming(g, {"same": True, "old-isinst": True, "val-isinst": True, "val-none": False}, fact, env)
+    hit = [i for i in unl if i in g.reachable([g.entry], edge_ok=same)]
+    if hit and g.witness(hit, [g.exit], avoid=links, edge_ok=same) is not None:
+        probs.append("when the assigned value IS the current value it is unlinked from the parent and not linked again "
+                     "(`obj.attr = obj.attr` switches change tracking off)")
     ctx.check(not probs, f"{lf.key}:set_", "; ".join(probs), "coerce, link, unlink old, return value", lf.loc)
 
 
@@ -586,6 +642,183 @@ def r4(ctx):
     ctx.check(want is not None and unparse(want) == "True", aw.key,
               "associate_with_attribute does not request coercion (coerce=True) from _listen_on_attribute",
               "coerce=True", aw.loc)
+
+
+# ----------------------------------------------------------------------------- C49-R6: the pickle round trip re-links
+_FILE_CALLS = {"append", "add", "extend", "insert", "update", "appendleft"}
+
+
+def _rooted(e, names):
+    """does the attribute / subscript / method-call chain `e` start from one of `names`?
+    (`sd.setdefault(K, ..)[key]` -> sd; `a if c else b`: both arms; `x or ()`: x; list(x): x)"""
+    while True:
+        e = _strip_materialise(e)
+        if isinstance(e, (ast.Attribute, ast.Subscript, ast.Starred)):
+            e = e.value
+        elif isinstance(e, ast.Call) and isinstance(e.func, ast.Attribute):
+            e = e.func.value
+        elif isinstance(e, ast.NamedExpr):
+            e = e.value
+        elif isinstance(e, ast.IfExp):
+            return _rooted(e.body, names) and _rooted(e.orelse, names)
+        elif isinstance(e, ast.BoolOp) and isinstance(e.op, ast.Or):
+            e = e.values[0]
+        else:
+            break
+    return isinstance(e, ast.Name) and e.id in names
+
+
+def _dict_value_locals(fn, env, state):
+    """locals bound to the attribute's current value: `<v> = <state>.dict.get(key[, None])` / `<state>.dict[key]`"""
+    out = set()
+    for n in walk_local(fn):
+        tg, v = None, None
+        if isinstance(n, ast.Assign) and len(n.targets) == 1:
+            tg, v = n.targets[0], n.value
+        elif isinstance(n, ast.AnnAssign) and n.value is not None:
+            tg, v = n.target, n.value
+        elif isinstance(n, ast.NamedExpr):
+            tg, v = n.target, n.value
+        if not isinstance(tg, ast.Name):
+            continue
+        if isinstance(v, ast.Call) and isinstance(v.func, ast.Attribute) and v.func.attr == "get" \
+                and unparse(expand(v.func.value, env)) == f"{state}.dict" and v.args and unparse(expand(v.args[0], env)) == "key":
+            out.add(tg.id)
+        if isinstance(v, ast.Subscript) and unparse(expand(v.value, env)) == f"{state}.dict" and unparse(expand(v.slice, env)) == "key":
+            out.add(tg.id)
+    return out
+
+
+def _mentions(e, names):
+    return any(isinstance(x, ast.Name) and x.id in names for x in ast.walk(e))
+
+
+def _filing_nodes(fn, g, env, v_names, sds):
+    """CFG nodes of the statements that put the value into the pickled state dictionary: a growing call
+    (`<chain rooted at state_dict>.append(<v>)`) or an item store (`<chain rooted at state_dict>[..] = <.. v ..>`); the
+    chain may run through single-assignment locals (`bucket = state_dict.setdefault(K, ..)`; `bucket[key].append(v)`)"""
+    out = []
+    for n in g.nodes:
+        if n.stmt is None or not isinstance(n.stmt, ast.stmt) or n.kind in ("with_exit", "handler", "join"):
+            continue
+        hit = False
+        for part in _own(n.stmt):
+            for c in calls_in(part):
+                if isinstance(c.func, ast.Attribute) and c.func.attr in _FILE_CALLS and any(_mentions(a, v_names) for a in c.args) \
+                        and _rooted(expand(c.func.value, env), sds):
+                    hit = True
+        if isinstance(n.stmt, ast.Assign) and n.kind == "stmt":
+            for tg in n.stmt.targets:
+                if isinstance(tg, ast.Subscript) and _rooted(expand(tg, env), sds) and _mentions(n.stmt.value, v_names):
+                    hit = True
+        if hit:
+            out.append(n.id)
+    return out
+
+
+def _none_fact(v_names):
+    def fact(e):
+        if isinstance(e, ast.Compare) and len(e.ops) == 1 and isinstance(e.ops[0], (ast.Is, ast.IsNot)) and isinstance(e.left, ast.Name) \
+                and e.left.id in v_names and isinstance(e.comparators[0], ast.Constant) and e.comparators[0].value is None:
+            return ("none", isinstance(e.ops[0], ast.Is))
+        return None
+    return fact
+
+
+def _undecided_tests(g, nodes, fact, env, val):
+    """the branch tests dominating `nodes` that the assumed facts do not decide (for the message)"""
+    from ._helpers_rob_g2 import tv3
+    out = []
+    for i in nodes:
+        for t, pol in g.edge_guards(i):
+            if tv3(t, val, fact, env) is None:
+                txt = ("" if pol else "not ") + "`" + unparse(t) + "`"
+                if txt not in out:
+                    out.append(txt)
+    return out
+
+
+@R.rule("C49-R6", floor=2, template="T-PATH",
+        desc="the pickle round trip re-establishes change tracking: the `pickle` listener files EVERY value that is not None "
+             "(an empty -- falsy -- container included) in the pickled state dictionary, and the `unpickle` listener links "
+             "every filed value back to its parent (val._parents[state] = key) whenever the pickled dictionary has the entry")
+def r6(ctx):
+    lf = ctx.func(f"{MUT}::MutableBase._listen_on_attribute")
+    nf = nested_functions(lf.node)
+    regs = _listener_registrations(lf)
+    pname, uname = regs.get("pickle", ("", {}))[0], regs.get("unpickle", ("", {}))[0]
+    ctx.require(pname in nf and uname in nf, "pickle / unpickle listeners of _listen_on_attribute not found as local functions")
+
+    # ---- writer
+    pk = nf[pname]
+    ctx.require(len(pk.args.args) >= 2, "pickle listener signature not understood")
+    state, sd = pk.args.args[0].arg, pk.args.args[1].arg
+    g = ctx.cfg(pk)
+    env = single_defs(pk)
+    v_names = _dict_value_locals(pk, env, state)
+    ctx.require(v_names, f"{lf.key}: the pickle listener does not read the attribute's value from {state}.dict[key] in a way this rule understands")
+    sds = {sd} | {n for n, v in env.items() if isinstance(v, ast.Name) and v.id == sd}
+    files = _filing_nodes(pk, g, env, v_names, sds)
+    key = f"{lf.key}:pickle:files-every-value"
+    if not files:
+        ctx.violation(key, f"the pickle listener never files the attribute's value in `{sd}`: after unpickling no value is linked "
+                           f"to its parent again", lf.loc)
+    else:
+        fact = _none_fact(v_names)
+        w = g.witness([g.entry], [g.exit], avoid=files, edge_ok=assuming(g, {"none": False}, fact, env))
+        why = ""
+        if w is not None:
+            und = _undecided_tests(g, files, fact, env, {"none": False})
+            why = ("a value that is not None can reach the end of the pickle listener without being filed in the pickled state "
+                   "dictionary" + (f" (filing is conditional on {', '.join(und)})" if und else "") + ": e.g. an EMPTY MutableDict/"
+                   "MutableList/MutableSet is falsy but still the attribute's value; the unpickle listener then never links it to its "
+                   "parent (`_parents` is not pickled), and in-place changes of the unpickled object are not flushed")
+        ctx.check(w is None, key, why, f"every non-None `{sorted(v_names)[0]}` is filed in {sd}", lf.loc, g.describe_path(w) if w else None)
+
+    # ---- reader
+    up = nf[uname]
+    ctx.require(len(up.args.args) >= 2, "unpickle listener signature not understood")
+    state, sd = up.args.args[0].arg, up.args.args[1].arg
+    g = ctx.cfg(up)
+    env = single_defs(up)
+    sds = {sd} | {n for n, v in env.items() if isinstance(v, ast.Name) and v.id == sd}
+    cenv = _const_env(lf, up)
+
+    def has_fact(e):
+        x = expand(e, env)
+        if isinstance(x, ast.Compare) and len(x.ops) == 1 and isinstance(x.ops[0], (ast.In, ast.NotIn)) \
+                and isinstance(x.comparators[0], ast.Name) and x.comparators[0].id in sds and _key_of(x.left, cenv, lf.module) is not None:
+            return ("has", isinstance(x.ops[0], ast.In))
+        neg = None
+        if isinstance(x, ast.Compare) and len(x.ops) == 1 and isinstance(x.ops[0], (ast.Is, ast.IsNot)) \
+                and isinstance(x.comparators[0], ast.Constant) and x.comparators[0].value is None:
+            neg, x = isinstance(x.ops[0], ast.Is), x.left
+        if isinstance(x, ast.Call) and isinstance(x.func, ast.Attribute) and x.func.attr == "get" and isinstance(x.func.value, ast.Name) \
+                and x.func.value.id in sds and x.args and _key_of(x.args[0], cenv, lf.module) is not None:
+            return ("has", not neg if neg is not None else True)
+        return None
+
+    loops = []          # (for statement, loop variable) over something taken from the pickled dictionary
+    for n in walk_local(up):
+        if isinstance(n, ast.For) and isinstance(n.target, ast.Name) and _rooted(expand(n.iter, env), sds):
+            loops.append(n)
+    key = f"{lf.key}:unpickle:links-every-filed-value"
+    probs = []
+    if not loops:
+        probs.append(f"the unpickle listener does not iterate over the values filed in `{sd}`")
+    heads = []
+    for lp in loops:
+        links = _parent_links(up, g, env, {lp.target.id}, {state})
+        for h in g.nodes_for(lp):
+            heads.append(h)
+            w = g.witness([h], [h], avoid=links, edge_ok=no_exc, start_edge_ok=lambda a, b, l: l == "true")
+            if w is not None or not links:
+                probs.append(f"an iteration of `for {lp.target.id} in {unparse(lp.iter)[:50]}` can end without "
+                             f"`{lp.target.id}._parents[{state}] = key`: that value stays untracked after unpickling")
+    if loops and g.witness([g.entry], [g.exit], avoid=heads, edge_ok=assuming(g, {"has": True}, has_fact, env)) is not None:
+        probs.append("although the pickled state dictionary has the entry, a path through the unpickle listener never reaches the "
+                     "loop that re-links the filed values")
+    ctx.check(not probs, key, "; ".join(probs), f"{len(loops)} loop(s) over the filed values, each iteration links", lf.loc)
 
 
 # ----------------------------------------------------------------------------- C49-R5: propagate reaches ALL descendants
@@ -905,7 +1138,8 @@ R.mutant("benign-rename-result", MUT,
          sub("        result = dict.popitem(self)\n        self.changed()\n        return result\n", "        item = dict.popitem(self)\n        self.changed()\n        return item\n"),
          None)
 R.mutant("benign-ior-calls-builtin", MUT,
-         sub("        self.update(other)\n        return self\n\n    def __iand__", "        set.update(self, other)\n        self.changed()\n        return self\n\n    def __iand__"),
+         sub("        self.update(other)\n        return self\n\n    def __iand__",
+             "        try:\n            set.update(self, other)\n        finally:\n            self.changed()\n        return self\n\n    def __iand__"),
          None)
 R.mutant("benign-extra-listener", MUT,
          sub("        event.listen(parent_cls, \"pickle\", pickle, raw=True, propagate=True)\n",
@@ -1105,3 +1339,136 @@ R.mutant("benign-list-insert-notify-helper", MUT, chain(
     sub("        list.insert(self, i, x)\n        self.changed()\n", "        list.insert(self, i, x)\n        self._notify()\n"),
     sub("    def reverse(self) -> None:\n", "    def _notify(self) -> None:\n        self.changed()\n\n    def reverse(self) -> None:\n"),
 ), None)
+
+
+# ---- round-2 adversarial seeds (str2-u): set_ failure atomicity (C49-R4), pickle round trip (C49-R6)
+_SET_TAIL = (
+    "            if not isinstance(value, cls):\n"
+    "                value = cls.coerce(key, value)\n"
+    "            if value is not None:\n"
+    "                value._parents[target] = key\n"
+    "            if isinstance(oldvalue, cls):\n"
+    "                oldvalue._parents.pop(inspect(target), None)\n"
+)
+_UNLINK = "            if isinstance(oldvalue, cls):\n                oldvalue._parents.pop(inspect(target), None)\n"
+_COERCE = "            if not isinstance(value, cls):\n                value = cls.coerce(key, value)\n"
+_LINK = "            if value is not None:\n                value._parents[target] = key\n"
+_SAME = "            if value is oldvalue:\n                return value\n\n"
+R.mutant("seed3-set-listener-unlinks-old-before-coerce-can-reject", MUT, sub(_SET_TAIL, _UNLINK + _COERCE + _LINK), "C49-R4")
+R.mutant("set-listener-unlinks-old-through-alias-before-coerce", MUT, sub(
+    _SET_TAIL,
+    "            old_is_ours = isinstance(oldvalue, cls)\n"
+    "            if old_is_ours:\n"
+    "                old_parents = oldvalue._parents\n"
+    "                old_parents.pop(inspect(target), None)\n" + _COERCE + _LINK), "C49-R4")
+R.mutant("set-listener-no-same-value-shortcut", MUT, sub(_SAME, ""), "C49-R4")
+# the same reordering done right: the old value goes only once the new one was accepted
+R.mutant("benign-set-listener-unlinks-old-after-coerce-before-link", MUT, sub(_SET_TAIL, _COERCE + _UNLINK + _LINK), None)
+R.mutant("benign-set-listener-no-shortcut-unlink-then-link", MUT, chain(sub(_SAME, ""), sub(_SET_TAIL, _COERCE + _UNLINK + _LINK)), None)
+R.mutant("benign-set-listener-unlink-early-return-alias", MUT, sub(
+    _SET_TAIL,
+    _COERCE + _LINK +
+    "            if not isinstance(oldvalue, cls):\n"
+    "                return value\n"
+    "            old_parents = oldvalue._parents\n"
+    "            old_parents.pop(inspect(target), None)\n"), None)
+
+_PICKLE_SETDEFAULT = (
+    "            val = state.dict.get(key)\n"
+    "            if {test}:\n"
+    "                state_dict.setdefault(\n"
+    "                    \"ext.mutable.values\", defaultdict(list)\n"
+    "                )[key].append(val)\n"
+)
+R.mutant("seed4-pickle-listener-skips-falsy-values", MUT, sub(_PICKLE, _PICKLE_SETDEFAULT.format(test="val")), "C49-R6")
+R.mutant("pickle-listener-files-only-when-it-creates-the-entry", MUT, sub(
+    _PICKLE,
+    "            val = state.dict.get(key, None)\n"
+    "            if val is not None:\n"
+    "                if \"ext.mutable.values\" not in state_dict:\n"
+    "                    state_dict[\"ext.mutable.values\"] = defaultdict(list)\n"
+    "                    state_dict[\"ext.mutable.values\"][key].append(val)\n"), "C49-R6")
+R.mutant("pickle-listener-early-return-on-falsy", MUT, sub(
+    _PICKLE,
+    "            val = state.dict.get(key, None)\n"
+    "            if not val:\n"
+    "                return\n"
+    "            bucket = state_dict.setdefault(\"ext.mutable.values\", defaultdict(list))\n"
+    "            bucket[key].append(val)\n"), "C49-R6")
+_UNPICKLE_LOOP = (
+    "                    for val in state_dict[\"ext.mutable.values\"][key]:\n"
+    "                        val._parents[state] = key\n"
+)
+R.mutant("unpickle-listener-skips-falsy-values", MUT, sub(
+    _UNPICKLE_LOOP,
+    "                    for val in state_dict[\"ext.mutable.values\"][key]:\n"
+    "                        if val:\n"
+    "                            val._parents[state] = key\n"), "C49-R6")
+R.mutant("unpickle-listener-relinks-legacy-format-only", MUT, sub(
+    _UNPICKLE_LOOP,
+    "                    for val in state_dict[\"ext.mutable.values\"][key]:\n"
+    "                        pass\n"), "C49-R6")
+_UNPICKLE_ALL = (
+    "            if \"ext.mutable.values\" in state_dict:\n"
+    "                collection = state_dict[\"ext.mutable.values\"]\n"
+    "                if isinstance(collection, list):\n"
+    "                    # legacy format\n"
+    "                    for val in collection:\n"
+    "                        val._parents[state] = key\n"
+    "                else:\n" + _UNPICKLE_LOOP
+)
+R.mutant("unpickle-listener-inverted-presence-test", MUT, sub(
+    _UNPICKLE_ALL,
+    "            if \"ext.mutable.values\" in state_dict:\n"
+    "                return\n"
+    "            collection = state_dict.get(\"ext.mutable.values\", {})\n"
+    "            values = collection if isinstance(collection, list) else collection.get(key, ())\n"
+    "            for val in values:\n"
+    "                val._parents[state] = key\n"), "C49-R6")
+R.mutant("benign-pickle-listener-setdefault-one-liner", MUT, sub(_PICKLE, _PICKLE_SETDEFAULT.format(test="val is not None")), None)
+R.mutant("benign-pickle-listener-early-return-bucket-alias", MUT, sub(
+    _PICKLE,
+    "            val = state.dict.get(key, None)\n"
+    "            if val is None:\n"
+    "                return\n"
+    "            bucket = state_dict.setdefault(\"ext.mutable.values\", defaultdict(list))\n"
+    "            per_key = bucket[key]\n"
+    "            per_key.append(val)\n"), None)
+R.mutant("benign-pickle-listener-flag-local-inverted", MUT, sub(
+    _PICKLE,
+    "            val = state.dict.get(key, None)\n"
+    "            missing = val is None\n"
+    "            if missing:\n"
+    "                pass\n"
+    "            else:\n"
+    "                if \"ext.mutable.values\" not in state_dict:\n"
+    "                    state_dict[\"ext.mutable.values\"] = defaultdict(list)\n"
+    "                state_dict[\"ext.mutable.values\"][key].append(val)\n"), None)
+R.mutant("benign-unpickle-listener-early-return-single-loop", MUT, sub(
+    _UNPICKLE_ALL,
+    "            if \"ext.mutable.values\" not in state_dict:\n"
+    "                return\n"
+    "            collection = state_dict[\"ext.mutable.values\"]\n"
+    "            values = collection if isinstance(collection, list) else collection[key]\n"
+    "            for val in values:\n"
+    "                val._parents[state] = key\n"), None)
+R.mutant("benign-unpickle-listener-get-and-none-test", MUT, sub(
+    _UNPICKLE_ALL,
+    "            collection = state_dict.get(\"ext.mutable.values\")\n"
+    "            if collection is not None:\n"
+    "                legacy = isinstance(collection, list)\n"
+    "                for val in list(collection if legacy else collection[key]):\n"
+    "                    val._parents[state] = key\n"), None)
+
+# C49-R2 partial failure (seed-agent observation, round 2): changed() is owed on the exceptional exit of a builtin that consumes
+# an iterable element by element
+_IADD = "        self.extend(x)\n        return self\n"
+R.mutant("list-iadd-calls-builtin-changed-only-on-success", MUT,
+         sub(_IADD, "        list.__iadd__(self, x)\n        self.changed()\n        return self\n"), "C49-R2")
+R.mutant("dict-ior-calls-builtin-changed-only-on-success", MUT,
+         sub("        self.update(other)\n        return self\n\n    if TYPE_CHECKING:",
+             "        dict.__ior__(self, other)\n        self.changed()\n        return self\n\n    if TYPE_CHECKING:"), "C49-R2")
+R.mutant("benign-list-iadd-calls-builtin-changed-in-finally", MUT,
+         sub(_IADD, "        try:\n            list.__iadd__(self, x)\n        finally:\n            self.changed()\n        return self\n"), None)
+R.mutant("benign-list-iadd-materialises-argument", MUT,
+         sub(_IADD, "        items = list(x)\n        list.__iadd__(self, items)\n        self.changed()\n        return self\n"), None)
